@@ -18,6 +18,7 @@ type Target struct {
 	Kind   string
 	Ctx    app.ContextScope // the object the calls go to
 	Errors func() []error   // where the errors must show up
+	ErrOf  func() error     // the cumulative-error accessor of the same object (Err)
 	Done   func() <-chan struct{}
 	Close  func() // releases scopes (parents/children) at the end; may be nil
 }
@@ -27,24 +28,46 @@ func NewTarget(kind string) (*Target, error) {
 	switch kind {
 	case "ctx":
 		c := contextscope.New()
-		return &Target{Kind: kind, Ctx: c, Errors: c.Errors, Done: c.Done}, nil
+		return &Target{Kind: kind, Ctx: c, Errors: c.Errors, ErrOf: c.Err, Done: c.Done}, nil
 	case "isolated":
 		p := contextscope.New()
 		c := contextscope.NewIsolated(p)
-		return &Target{Kind: kind, Ctx: c, Errors: c.Errors, Done: c.Done, Close: func() { p.Stop() }}, nil
+		return &Target{Kind: kind, Ctx: c, Errors: c.Errors, ErrOf: c.Err, Done: c.Done, Close: func() { p.Stop() }}, nil
 	case "scope":
 		s := scope.New(scope.Params{})
-		return &Target{Kind: kind, Ctx: s, Errors: s.Errors, Done: s.Done}, nil
+		return &Target{Kind: kind, Ctx: s, Errors: s.Errors, ErrOf: s.Err, Done: s.Done}, nil
 	case "childshared":
 		p := scope.New(scope.Params{})
 		c := scope.NewChild(p, scope.ChildParams{})
-		return &Target{Kind: kind, Ctx: c, Errors: p.Errors, Done: p.Done}, nil
+		return &Target{Kind: kind, Ctx: c, Errors: p.Errors, ErrOf: p.Err, Done: p.Done}, nil
 	case "childisolated":
 		p := scope.New(scope.Params{})
 		c := scope.NewChild(p, scope.ChildParams{ContextScope: contextscope.NewIsolated(p.BaseContextScope())})
-		return &Target{Kind: kind, Ctx: c, Errors: c.Errors, Done: c.Done, Close: func() { p.Stop() }}, nil
+		return &Target{Kind: kind, Ctx: c, Errors: c.Errors, ErrOf: c.Err, Done: c.Done, Close: func() { p.Stop() }}, nil
 	}
 	return nil, fmt.Errorf("unknown target %q", kind)
+}
+
+// LeafCount counts the errors a cumulative error reports: the leaves beneath its wrappers (UnwrapAll / Unwrap() []error).
+func LeafCount(err error) int {
+	if err == nil {
+		return 0
+	}
+	var list []error
+	switch x := err.(type) {
+	case interface{ UnwrapAll() []error }:
+		list = x.UnwrapAll()
+	case interface{ Unwrap() []error }:
+		list = x.Unwrap()
+	}
+	if len(list) == 0 {
+		return 1
+	}
+	n := 0
+	for _, e := range list {
+		n += LeafCount(e)
+	}
+	return n
 }
 
 // SignalResult is the outcome of one scripted storm.
